@@ -555,6 +555,62 @@ func waitingNow(w0, w1 bool, sigs int, ops []string) bool {
 
 func outsideConsumed(ops []string) int { return 0 }
 
+// ---------------------------------------------------------------- real sockets
+
+// tcpCase: one command of the driver's real-socket family (proxyrelay / orburst).
+type tcpCase struct {
+	Kind string `json:"kind"` // "tcp"
+	Cmd  string `json:"cmd"`
+}
+
+func checkTCP(r *vlib.Run, h *hook, c tcpCase) {
+	c.Kind = "tcp"
+	rep := h.call(c.Cmd)
+	r.Case("tcp "+c.Cmd, true)
+	r.Validated(1)
+	r.Count("tcp", strings.Fields(c.Cmd)[0])
+	r.Sample(12, map[string]interface{}{"cmd": c.Cmd, "driver": rep})
+	kv := map[string]string{}
+	for _, t := range strings.Fields(rep) {
+		if p := strings.SplitN(t, "=", 2); len(p) == 2 {
+			kv[p[0]] = p[1]
+		}
+	}
+	fail := func(sig, desc string) {
+		r.Violate(sig, "impl-oracle", fmt.Sprintf("%s: %s (driver: %s)", c.Cmd, desc, rep), c)
+	}
+	if strings.HasPrefix(rep, "hook-timeout") || strings.HasPrefix(rep, "stuck") {
+		fail("copyloop-never-returns", "the relay over real sockets did not finish within the bounded wait")
+		return
+	}
+	if !strings.HasPrefix(rep, "ok ") {
+		r.Violate("hook-driver-error", "correspondence", c.Cmd+": "+rep, c)
+		return
+	}
+	switch strings.Fields(c.Cmd)[0] {
+	case "proxyrelay":
+		// property: as soon as either side ends both connections are closed and the relay returns
+		if kv["returned"] != "1" {
+			h.restart() // its goroutines are still blocked on the sockets
+			fail("copyloop-never-returns", "one side of a relay through the real http proxy dialer ended; 3 s later (bounded wait) copyLoop has not returned")
+		} else if kv["proxy_saw_close"] != "1" {
+			fail("proxy-conn-left-open", "copyLoop returned, but 3 s later (bounded wait) the upstream proxy has still not seen its connection close")
+		} else if kv["local_closed"] != "1" {
+			fail("conn-left-open", "copyLoop returned without closing the local conn")
+		}
+	case "orburst":
+		// property: a side that ends while the other is healthy has had all its earlier bytes forwarded first
+		if kv["got"] != kv["sent"] || kv["hash"] != "ok" || kv["end"] != "eof" {
+			fail("orport-bytes-lost-at-close", fmt.Sprintf("the bridge side produced %s bytes and then EOF; the ORPort (reading slowly) received %s bytes (hash %s) and then %q", kv["sent"], kv["got"], kv["hash"], kv["end"]))
+		}
+	}
+}
+
+var tcpCmds = []string{
+	"proxyrelay local-first", "proxyrelay proxy-first",
+	"orburst 4194304 65536 4000", "orburst 262144 4096 2000", "orburst 1048576 1024 0", "orburst 3000000 32768 1000",
+}
+
 // ---------------------------------------------------------------- handlers (clientHandler / serverHandler)
 
 type handlerCase struct {
@@ -1424,6 +1480,10 @@ func main() {
 			var c gapCase
 			r.LoadReplay(&c)
 			checkGap(r, ws[0].h, ws[0].d, c)
+		case "tcp":
+			var c tcpCase
+			r.LoadReplay(&c)
+			checkTCP(r, ws[0].h, c)
 		case "relay":
 			var c relayCase
 			r.LoadReplay(&c)
@@ -1495,6 +1555,10 @@ func main() {
 	}
 	hcases = append(hcases, handlerCase{Who: "client", Path: "hold", Mode: "hold"}, handlerCase{Who: "server", Path: "hold", Mode: "hold"})
 	parallel(ws, len(hcases), func(w *worker, i int) { checkHandler(r, w.h, hcases[i]) })
+
+	// 2b. real sockets: the real http proxy dialer's conn under copyLoop; serverHandler with a
+	// slowly reading loopback ORPort
+	parallel(ws, len(tcpCmds)*2, func(w *worker, i int) { checkTCP(r, w.h, tcpCase{Cmd: tcpCmds[i%len(tcpCmds)]}) })
 
 	// 3. relay: all schedules of the small scripts
 	exh := true
